@@ -1834,7 +1834,7 @@ def remove_velocity_sinex(sinex):
                         j += 1
                     out.write(" \n")
         # Write out end of block line, and delete large variables
-        out.write(block_end)
+        out.write(block_end + '\n')
         del solution_matrix_estimate
         del Q
 
